@@ -76,6 +76,21 @@ def check_cli(chk) -> None:
         odd = [k.arg for k in a.keywords if k.arg not in ("help", "metavar", "required", "default") and not (k.arg == "type" and norm(k.value) == "str")]
         if odd and a.args and isinstance(a.args[0], ast.Constant) and a.args[0].value not in ("input", "output"):
             chk.error("cli-wiring", fi.site(a), f"option `{a.args[0].value}` is declared with {', '.join(str(x) + '=' for x in odd)}: what reaches the library for a given text is not decided by the pinned forms (and main could not be evaluated)")
+    # every way out of main except the end of its body: only the 'no action requested' exit (help / usage error) is known to the forms
+    def _blocks(node):
+        for n in ast.walk(node):
+            for field in ("body", "orelse", "finalbody"):
+                b = getattr(n, field, None)
+                if isinstance(b, list) and b and isinstance(b[0], ast.stmt):
+                    yield b
+            if isinstance(n, ast.Try):
+                for h in n.handlers:
+                    yield h.body
+    for block in _blocks(fi.node):
+        for k, st in enumerate(block):
+            leaves = isinstance(st, (ast.Return, ast.Raise)) or (isinstance(st, ast.Expr) and isinstance(st.value, ast.Call) and norm(st.value.func).split(".")[-1] in ("exit", "_exit", "quit", "abort"))
+            if leaves and not (k and isinstance(block[k - 1], ast.Expr) and isinstance(block[k - 1].value, ast.Call) and norm(block[k - 1].value.func).split(".")[-1] in ("print_help", "print_usage", "error")):
+                chk.error("cli-dispatch", fi.site(st), f"main leaves at `{norm(st)[:60]}` on a path the pinned forms do not know: whether the library result is written on every path is not decided (and main could not be evaluated)")
     chk.expect(set(lib) == {"copy_from_to", "replace_value"}, "cli-dispatch", fi.where, "both library functions are reachable from the CLI", "a library function is no longer called by the CLI", K(fi, "dispatch"))
     # option -> parameter wiring
     if "copy_from_to" in lib:
@@ -319,7 +334,7 @@ def run(chk) -> None:
     chk.note_function(fi)
     why = cli_why = _fact_level(chk, c20e.check_cli, fi)
     if why is None:
-        for rule, n in (("cli-eval", 15), ("cli-inplace-eval", 15)):
+        for rule, n in (("cli-eval", 60), ("cli-inplace-eval", 45)):
             chk.floor(rule, n)
     else:
         chk.ok("cli-facts", fi.where, f"fact-level reading of main not possible ({why[:160]}); falling back to the pinned forms")
